@@ -123,6 +123,8 @@ type Gen struct {
 	cellCtr  int
 	globals  map[*ssa.Global]*Cell
 	cellGlobal map[*Cell]*ssa.Global
+	freshMaps map[string]bool // map locations made by the function and not written since (syntactic)
+	preTheory []string // declarations that theory modules may refer to (emitted before the theory text)
 	renames  map[string]string // recorded local name -> current local name (source-order alignment, rename.go)
 	escaped  map[*Cell][2]string // locals moved to the pointer heap: heap name, location
 	entry    *State
